@@ -88,6 +88,15 @@ CLAIMED = {
                      'use-after-free, stack use) is not modelled: each cell of the mutation / confusion / deep-treespec grids runs in a forked '
                      'child (process death = failure); thorough repeats them on an ASan+UBSan build.' + PARTIAL,
                 technique='Lean 4 proof (depth induction, adversarial loop machine) with obligations regenerated from the source + correspondence + forked crash grid (ASan in thorough)', ref='6 C16'),
+    'C17': dict(text='Proved: C17_deadlock_free (threads under the GIL with engine mutexes that block while holding it: if no lock program '
+                     'runs user code inside a mutex scope, no schedule of any number of threads reaches a stuck state; invariant over all '
+                     'schedules) with converse C17_callback_under_lock_deadlocks; C17_iterator_exactly_once / C17_iterator_complete (a shared leaf '
+                     'iterator: under every interleaving of the consumers at the is_leaf switch points, delivered + pending leaves are a '
+                     'permutation of the leaves of the tree); C17_register_once; generated obligation C17_no_callback_under_engine_lock '
+                     '(T-locks: every scoped lock guard in src/ and include/, closed over the call graph) re-checked on every run. Pre-emption '
+                     'inside C++ (free-threaded builds) and real timing are not modelled: parked-callback scheduler in forked children with an '
+                     'alarm (all pairs A x B, every parking position in thorough), randomised pre-emptive schedules.' + PARTIAL,
+                technique='Lean 4 proof (scheduler invariant, permutation invariant) with obligations regenerated from the source + correspondence + parked-callback scheduler', ref='6 C17'),
     'C18': dict(text='Proved: C18_sort_twin / C18_sort_spec (the C++ TotalOrderSort with its restore-on-failure and the Python total_order_sorted '
                      'compute the same list for every key list), C18_namedtuple_twin, C18_structseq_twin (C++ and Python classification predicates '
                      'agree on every realisable class description), C18_one_level_twin, C18_cache_inv / C18_cache_transparent (the bounded, '
